@@ -702,6 +702,8 @@ class Bed:
                 cl["exc_text"] = str(e)[:300]
             cl["elapsed"] = self.loop.time() - t0
             cl["quiet"] = await self._quiesce(conns)
+            cl["c2s_len"] = len(conns[0][0].total) if conns else 0
+            cl["s2c_len"] = len(conns[0][1].total) if conns else 0
             # keep-alive outcome
             pooled = [p for dq in connector._conns.values() for (p, _t) in dq]
             st = {"n_conns": len(conns), "pooled": len(pooled),
@@ -1040,9 +1042,12 @@ def plain_keepalive(case):
 # known-finding signatures
 
 def _is_head_stream(case):
+    """HEAD answered by a StreamResponse whose last piece is handed to write_eof(data) (the write() path
+    was repaired by 1a48374; write_eof(data) still puts the bytes on the wire)."""
     rq, rs = case.get("req") or {}, case.get("resp") or {}
+    ps = [p for p in (rs.get("pieces") or [])]
     return (rq.get("method", "").upper() == "HEAD" and rs.get("kind") == "stream" and not rs.get("no_write")
-            and (rs.get("body") or {}).get("size", 0) > 0)
+            and bool(rs.get("eof_with_data")) and bool(ps) and ps[-1] > 0)
 
 
 def _is_none_body_compress(case):
@@ -1093,7 +1098,7 @@ SIGNATURES = {
     "client_chunked_false": _sig_chunked_false,
     "h10_expect_continue": _sig_h10_expect,
     "expect_body_unsent_reuse": _sig_expect_unsent_body,
-    "head_stream_body_on_wire": _sig_head_stream,
+    "head_write_eof_data_on_wire": _sig_head_stream,
     "none_body_compression_assert": _sig_none_body_compress,
 }
 
@@ -1460,7 +1465,7 @@ def run(ctx):
     budget = 45.0 if ctx.quick else 900.0
     n_target = 1500 if ctx.quick else 60000
     bed = Bed()
-    t0 = _time.time()
+    t0 = _time.perf_counter()
     ran = 0
     wire_cases = []
     try:
@@ -1471,7 +1476,7 @@ def run(ctx):
         for case in special_cases(rng):
             check_case(ctx, bed, case)
             ran += 1
-        while ran < n_target and _time.time() - t0 < budget:
+        while ran < n_target and _time.perf_counter() - t0 < budget:
             case = gen_case(rng)
             if rng.random() < 0.01:
                 case = rng.choice(special_cases(rng))
@@ -1485,8 +1490,9 @@ def run(ctx):
                 bed = Bed()
                 continue
             ran += 1
-            if not bad and in_model_subset(case) and len(wire_cases) < (400 if ctx.quick else 4000):
-                wire_cases.append((case, out["wire_c2s"], out["server"]))
+            if not bad and in_model_subset(case) and out["server"].get("calls") == 1 \
+                    and len(wire_cases) < (600 if ctx.quick else 6000):
+                wire_cases.append((case, out["wire_c2s"], out["server"], out["client"]))
             if ran % 7 == 0:
                 ctx.sample({"case": case, "observed": summarize(out)}, limit=4)
     finally:
@@ -1499,87 +1505,106 @@ def run(ctx):
 # ------------------------------------------------------------------------------------------------
 # model correspondence: the request bytes on the wire vs coq/Model/Wire.v
 
+UNMODELLED_HEADERS = {"content-length", "transfer-encoding", "expect", "content-encoding", "cookie"}
+
+
 def in_model_subset(case):
-    """Requests the Coq model serialises: body none / bytes with Content-Length / chunked piece list, no
-    compression, no Expect, HTTP/1.1 or 1.0."""
+    """Requests Model/Wire.v `build` + `client_serialize` cover: body none / bytes (size known) / async
+    generator pieces; no cookies, compression, Expect, skip_auto_headers; chunked None or True."""
     rq = case["req"]
     b = rq.get("body") or {"kind": "none"}
-    if rq.get("compress") or rq.get("expect100") or rq.get("chunked") is False:
+    if rq.get("compress") or rq.get("expect100") or rq.get("chunked") is False or rq.get("cookies") or rq.get("skip_auto"):
         return False
-    if b["kind"] not in ("none", "bytes", "bytearray", "agen", "bytesio"):
+    if b["kind"] not in ("none", "bytes", "bytearray", "memoryview", "agen", "bytesio"):
         return False
     if b.get("size", 0) > 5000:
+        return False
+    if any(k.lower() in UNMODELLED_HEADERS for k, _v in rq.get("headers") or []):
         return False
     return True
 
 
+def _csv(s: str) -> str:
+    return ",".join(str(ord(c)) for c in s) if s else "-"
+
+
+def model_line(case, cl, rng):
+    from aiohttp.client_reqrep import ClientRequest
+    from aiohttp import hdrs
+    from aiohttp.http import SERVER_SOFTWARE
+    rq = case["req"]
+    hs = [(k, v) for k, v in (rq.get("headers") or [])]
+    if rq.get("conn"):
+        hs.append(("Connection", rq["conn"]))
+    b = rq.get("body") or {"kind": "none"}
+    if b["kind"] == "none":
+        body = ["N"]
+    else:
+        raw = gen_bytes(b["pat"], b["size"], b["seed"])
+        if b["kind"] == "agen":
+            body = ["C"] + [fw.hexs(p) for p in pieces_of(raw, b.get("pieces") or [len(raw)])]
+        else:
+            body = ["L", fw.hexs(raw)]
+    n = cl["c2s_len"]
+    c1 = rng.randint(0, n)
+    c2 = rng.randint(c1, n)
+    ch = {None: "n", True: "t", False: "f"}[rq.get("chunked")]
+    parts = ["RT", _csv(rq["method"]), _csv(cl["url_target"]), _csv(cl["host_header"]),
+             "0" if rq.get("version") == "1.0" else "1", ch, "1" if rq.get("force_close") else "0",
+             _csv(ClientRequest.DEFAULT_HEADERS[hdrs.ACCEPT_ENCODING]), _csv(SERVER_SOFTWARE), str(len(hs))]
+    for k, v in hs:
+        parts += [_csv(k), _csv(v)]
+    parts += [str(c1), str(c2)] + body
+    return " ".join(parts)
+
+
 def suite_wire_model(ctx, wire_cases):
-    """For each recorded request: (1) re-serialise with the model from the header list the real client
-    put on the wire + the body framing and compare bytes; (2) parse the real bytes with the model parser
-    under a model-side segmentation and compare with what the handler saw."""
+    """For each recorded request of the modelled subset: the extracted model (build + client_serialize) must
+    emit exactly the bytes the real ClientSession put on the wire; `valid` (the hypothesis of
+    C02_request_roundtrip) must hold of it; the model's parse of a three-read segmentation of those bytes
+    must be what the real handler saw; and the theorem's conclusion, evaluated on that run, must hold."""
     ok, exe = build_model()
     if not ok:
         ctx.oblige("model-build", "correspondence", False, str(exe)[-800:])
         return
     lines, metas = [], []
-    for case, wire, sv in wire_cases:
-        j = wire.find(b"\r\n\r\n")
-        if j < 0:
-            continue
-        head = wire[:j].split(b"\r\n")
-        try:
-            method, target, ver = head[0].decode("utf-8").split(" ", 2)
-        except ValueError:
-            continue
-        hs = []
-        for ln in head[1:]:
-            k, _, v = ln.partition(b": ")
-            hs.append((k, v))
-        rq = case["req"]
-        b = rq.get("body") or {"kind": "none"}
-        raw = gen_bytes(b["pat"], b["size"], b["seed"]) if b["kind"] != "none" else b""
-        chunked = any(k.lower() == b"transfer-encoding" for k, _ in hs)
-        if chunked:
-            # piece list as the writer saw it: derive from the wire (each chunk is one write)
-            pieces = decode_chunks(wire[j + 4:])
-            if pieces is None:
-                continue
-            bodyspec = "C " + " ".join(fw.hexs(p) for p in pieces) if pieces else "C"
-        elif raw:
-            bodyspec = "L " + fw.hexs(raw)
-        else:
-            bodyspec = "N"
-        cut = ctx.rng.randint(0, len(wire))
-        cut2 = ctx.rng.randint(cut, len(wire))
-        line = " ".join(["RT", fw.hexs(method.encode()), fw.hexs(target.encode()), ver[-3:].replace(".", ""),
-                         str(len(hs))] + [fw.hexs(k) + " " + fw.hexs(v) for k, v in hs] + [str(cut), str(cut2), bodyspec])
-        lines.append(line)
-        metas.append((case, wire, sv, hs, raw))
+    for case, wire, sv, cl in wire_cases:
+        lines.append(model_line(case, cl, ctx.rng))
+        metas.append((case, wire[:cl["c2s_len"]], sv))
     if not lines:
         ctx.close_suite("wire_request_model", 0)
         return
     answers = fw.run_model(exe, lines)
     ran = 0
-    for (case, wire, sv, hs, raw), ans in zip(metas, answers):
+    for (case, wire, sv), ans, line in zip(metas, answers, lines):
         ran += 1
-        # answer: "OK <hex wire> <method> <target> <ver> <close 0/1> <n> (<name> <value>)* <body>" or "REFUSED"/"PARSEFAIL .."
         parts = ans.split()
+        ctx.count("model:" + parts[0])
         if parts[0] != "OK":
-            ctx.disagreement("wire_request_model", {"case": case}, ans[:300], wire[:300].hex())
+            ctx.disagreement("wire_request_model", {"case": case, "line": line[:400]}, ans[:300], wire[:300].hex())
             continue
-        mwire = fw.unhex(parts[1])
+        valid, mwire = parts[1] == "1", fw.unhex(parts[2])
         if mwire != wire:
-            ctx.disagreement("wire_request_model", {"case": case, "what": "serialisation"}, mwire[:400].hex(), wire[:400].hex())
+            ctx.disagreement("wire_request_model", {"case": case, "what": "bytes on the wire"}, mwire[:600].decode("latin1"), wire[:600].decode("latin1"))
             continue
-        m_method, m_target = fw.unhex(parts[2]).decode(), fw.unhex(parts[3]).decode("utf-8", "surrogateescape")
-        m_close = parts[5] == "1"
-        n = int(parts[6])
-        m_hs = [(fw.unhex(parts[7 + 2 * i]).decode("utf-8", "surrogateescape"), fw.unhex(parts[8 + 2 * i]).decode("utf-8", "surrogateescape")) for i in range(n)]
-        m_body = fw.unhex(parts[7 + 2 * n])
-        impl = (sv["method"], sv["raw_path"], [(k, v) for k, v in sv["headers"]], not sv["keep_alive"])
-        model = (m_method, m_target, m_hs, m_close)
+        if not valid:
+            ctx.disagreement("wire_request_model", {"case": case, "what": "`valid` is false of a request the real endpoints exchanged"}, ans[:200], "")
+            continue
+        dec = lambda h: fw.unhex(h).decode("utf-8", "surrogateescape")  # noqa: E731
+        m_method, m_target, m_ver, m_close = dec(parts[3]), dec(parts[4]), parts[5], parts[6] == "1"
+        n = int(parts[7])
+        if n == 0:
+            m_hs, rest = [], parts[9:]
+        else:
+            m_hs = [[dec(parts[8 + 2 * i]), dec(parts[9 + 2 * i])] for i in range(n)]
+            rest = parts[8 + 2 * n:]
+        m_body, theorem = fw.unhex(rest[0]), rest[1] == "1"
+        impl = (sv["method"], sv["raw_path"], sv["version"].replace(".", ""), not sv["keep_alive"], sv["headers"])
+        model = (m_method, m_target, m_ver, m_close, m_hs)
         if impl != model or (sv.get("body") is not None and m_body != sv["body"]):
-            ctx.disagreement("wire_request_model", {"case": case, "what": "parse"}, repr(model)[:600], repr(impl)[:600])
+            ctx.disagreement("wire_request_model", {"case": case, "what": "what the handler saw"}, repr(model)[:700], repr(impl)[:700])
+        elif not theorem:
+            ctx.disagreement("wire_request_model", {"case": case, "what": "C02_request_roundtrip's conclusion is false on this run"}, ans[:200], "")
     ctx.close_suite("wire_request_model", ran)
 
 
